@@ -9,6 +9,7 @@ import TshVerif.Model.ConvBatch
 import TshVerif.Model.Parser
 import TshVerif.Model.Cli
 import TshVerif.Model.Wf
+import TshVerif.Model.Typed
 
 open Tsh
 
@@ -34,7 +35,8 @@ def withProgram (sexp : String) (f : Program → String) : String :=
 
 /-- answer tag of a successful emission: the theorems about emitted scripts assume `wfStmts` of the
     AST, so an AST that is not well-formed is reported (it shows up as a correspondence break) -/
-def wfTag (p : Program) : String := if wfStmts p then "OK " else "NOTWF "
+def wfTag (p : Program) : String :=
+  if !wfStmts p then "NOTWF " else if !typedProgram p then "ILLTYPED " else "OK "
 
 def handleBash (sexp : String) : String :=
   withProgram sexp fun p =>
